@@ -18,29 +18,7 @@ func c20(c *core.Ctx) {
 	// -----------------------------------------------------------------------------------------
 	c.Clause("C20.1", "no closure started with go/defer inside a loop of the message-path packages refers to a variable declared by the loop statement while the module's language version shares that variable between iterations")
 	c.Run("loopclosure", func() {
-		fromTypes, fromMod := moduleGoVersion(c)
-		c.CheckTrivial("language-version-known", "go-directive", fromTypes != "" && (fromMod == "" || fromMod == fromTypes || fromMod+".0" == fromTypes), token.NoPos,
-			"language version used by the type checker: %q, go directive of go.mod: %q (loop variables are shared between iterations: %v)", fromTypes, fromMod, sharedLoopVar(fromTypes))
-		n := 0
-		for _, rel := range []string{"network", "network/p2p", "chain/consensus"} {
-			perFn := map[string]int{}
-			for _, lc := range loopClosures(c, rel) {
-				n++
-				name := objName(lc.Func)
-				key := "loopclosure/" + rel + "." + name
-				if perFn[name] > 0 {
-					key += "#" + string(rune('a'+perFn[name]))
-				}
-				perFn[name]++
-				var names []string
-				for _, v := range lc.Captured {
-					names = append(names, v.Name())
-				}
-				ok := len(lc.Captured) == 0 || !lc.Shared
-				c.Check(key, "loop-variable-capture", ok, lc.Stmt.Pos(), "a goroutine/deferred closure in a loop of %s refers to loop variable(s) %v (shared between iterations: %v): it would see the value of a later iteration", name, names, lc.Shared)
-			}
-		}
-		c.Floor("go/defer-closures-in-loops", n, 3) // handleTxsMsg, stableBlockLoop, p2p.Server.listenLoop
+		c20LoopClosures(c)
 	})
 
 	// -----------------------------------------------------------------------------------------
@@ -479,6 +457,9 @@ func c20(c *core.Ctx) {
 	c.Clause("C20.6", "a transaction gossiped by several peers at once enters the pool once: handleTxsMsg adds from one goroutine per message, so the pool's existence test and its index insert happen under one hold of the pool's mutex (clause of C18.3, evaluated here as well)")
 	c.Run("pool-insert-atomic", func() { c18InsertAtomic(c) })
 
+	c.Clause("C20.7", "nothing is dropped between the socket and its handler: every send of package network on a channel held in one of its own types blocks (no select-with-default around it)")
+	c.Run("no-dropping-send", func() { c20NoDroppingSend(c) })
+
 	c.NotDecidedf("convergence itself: equality of the end states (current/stable block, pool content) over all delivery orders, duplications and interleavings is a property of histories and is not decided")
 	c.NotDecidedf("that BlockCache keeps heights ascending and loses no block (only the overwrite-by-append shape is decided), eviction at 10240 entries, timing of the 500 ms drain, which peer is asked")
 	c.NotDecidedf("exactly-once delivery to the pool across batches and peers (TxPool's own duplicate test belongs to C18)")
@@ -502,4 +483,31 @@ func argIs(ci ssa.CallInstruction, v ssa.Value) bool {
 		}
 	}
 	return false
+}
+
+// c20LoopClosures is the loop-variable capture rule C20.1 (evaluated under C19.6 as well: the engine's background goroutines).
+func c20LoopClosures(c *core.Ctx) {
+	fromTypes, fromMod := moduleGoVersion(c)
+	c.CheckTrivial("language-version-known", "go-directive", fromTypes != "" && (fromMod == "" || fromMod == fromTypes || fromMod+".0" == fromTypes), token.NoPos,
+		"language version used by the type checker: %q, go directive of go.mod: %q (loop variables are shared between iterations: %v)", fromTypes, fromMod, sharedLoopVar(fromTypes))
+	n := 0
+	for _, rel := range []string{"network", "network/p2p", "chain/consensus"} {
+		perFn := map[string]int{}
+		for _, lc := range loopClosures(c, rel) {
+			n++
+			name := objName(lc.Func)
+			key := "loopclosure/" + rel + "." + name
+			if perFn[name] > 0 {
+				key += "#" + string(rune('a'+perFn[name]))
+			}
+			perFn[name]++
+			var names []string
+			for _, v := range lc.Captured {
+				names = append(names, v.Name())
+			}
+			ok := len(lc.Captured) == 0 || !lc.Shared
+			c.Check(key, "loop-variable-capture", ok, lc.Stmt.Pos(), "a goroutine/deferred closure in a loop of %s refers to loop variable(s) %v (shared between iterations: %v): it would see the value of a later iteration", name, names, lc.Shared)
+		}
+	}
+	c.Floor("go/defer-closures-in-loops", n, 3) // handleTxsMsg, stableBlockLoop, p2p.Server.listenLoop
 }
